@@ -15,7 +15,7 @@ LEVEL = "exploration"
 RULE = ("Slice/Reverse/Chain/CountFrom/RunningChunkBy against Python list "
         "slicing, reversed, itertools and sliding windows.")
 ASSUMPTIONS = [
-    "flows are finite lists of distinct ints; Slice objects are built fresh for every run",
+    "flows are finite lists of distinct ints and lists containing None / false values; Slice objects are built fresh for every run",
     "integer-valued float steps, Slice() without arguments and a list passed directly to a negative Slice.run are left out (not promised)",
 ]
 
@@ -36,18 +36,37 @@ def _mk(start, stop, step, form):
     return Slice(start, stop, step)
 
 
+FALSY = [None, 0, False, "", (), 0.0]
+
+
+def make_flow(kind, n):
+    """flows of distinct ints, and flows with values that are false or None
+    (an element must not mistake a value for 'no value')"""
+    if kind == "none_holes":
+        return [None if i % 3 == 1 else 100 + i for i in range(n)]
+    if kind == "all_none":
+        return [None] * n
+    if kind == "falsy":
+        return [FALSY[i % len(FALSY)] for i in range(n)]
+    return list(range(100, 100 + n))
+
+
+def _typed(v):
+    return (type(v).__name__, v)
+
+
 def judge_run(case):
     start, stop, step, n, form = (case["start"], case["stop"], case["step"],
                                   case["n"], case.get("form", 3))
-    xs = list(range(100, 100 + n))
+    xs = make_flow(case.get("vals", "range"), n)
     exp = xs[start:stop:step]
     got = list(_mk(start, stop, step, form).run(iter(xs)))
-    if got != exp:
+    if list(map(_typed, got)) != list(map(_typed, exp)):
         raise Violation("slice-run-differs-from-list-slicing",
                         "Slice(%r,%r,%r).run(range %d) = %s, expected %s" % (
                             start, stop, step, n, short(got), short(exp)))
     got2 = list(Sequence(_mk(start, stop, step, form)).run(xs))
-    if got2 != exp:
+    if list(map(_typed, got2)) != list(map(_typed, exp)):
         raise Violation("slice-in-sequence-differs-from-list-slicing",
                         "Sequence(Slice(%r,%r,%r)).run(list %d) = %s, expected %s" % (
                             start, stop, step, n, short(got2), short(exp)))
@@ -62,6 +81,9 @@ def judge_run(case):
 def cases_run(tier):
     for start, stop, step, n in itertools.product(R, R, STEPS, range(11)):
         yield {"start": start, "stop": stop, "step": step, "n": n, "form": 3}
+    for vals in ("none_holes", "all_none", "falsy"):
+        for start, stop, step, n in itertools.product(R, R, STEPS, range(1, 11)):
+            yield {"start": start, "stop": stop, "step": step, "n": n, "form": 3, "vals": vals}
     for stop, n in itertools.product(R, range(11)):
         yield {"start": None, "stop": stop, "step": None, "n": n, "form": 1}
     for start, stop, n in itertools.product(R, R, range(11)):
@@ -78,7 +100,7 @@ class _Collect(object):
 
 def judge_fill(case):
     start, stop, step, n = case["start"], case["stop"], case["step"], case["n"]
-    xs = list(range(n))
+    xs = list(range(n)) if "vals" not in case else make_flow(case["vals"], n)
     sl = _mk(start, stop, step, case.get("form", 3))
     col = _Collect()
     stopped = None
@@ -89,7 +111,7 @@ def judge_fill(case):
             stopped = i
             break
     exp = xs[start:stop:step]
-    if col.got != exp:
+    if list(map(_typed, col.got)) != list(map(_typed, exp)):
         raise Violation("slice-fill_into-differs-from-list-slicing",
                         "Slice(%r,%r,%r).fill_into over range(%d) filled %s, expected %s (stopped at %r)"
                         % (start, stop, step, n, short(col.got), short(exp), stopped))
@@ -111,6 +133,9 @@ def cases_fill(tier):
         yield {"start": start, "stop": stop, "step": step, "n": n, "form": 3}
     for stop, n in itertools.product(NN, range(11)):
         yield {"start": None, "stop": stop, "step": None, "n": n, "form": 1}
+    for vals in ("none_holes", "falsy"):
+        for start, stop, step, n in itertools.product(NN, NN, STEPS, range(1, 11)):
+            yield {"start": start, "stop": stop, "step": step, "n": n, "form": 3, "vals": vals}
 
 
 BAD_STEPS = [0, -1, -3, 1.5, 2.5]
@@ -128,7 +153,7 @@ def judge_reject(case):
 
 def cases_reject(tier):
     for step in BAD_STEPS:
-        for start, stop in itertools.product([None, -3, 0, 2], [None, -2, 0, 5]):
+        for start, stop in itertools.product(R, R):
             yield {"start": start, "stop": stop, "step": step}
 
 
@@ -154,7 +179,7 @@ _NT = dict((k, collections.namedtuple("NT%d" % k, ["f%d" % i for i in range(k)])
 
 def judge_chunks(case):
     size, n, kind = case["size"], case["n"], case["container"]
-    xs = list(range(n))
+    xs = make_flow(case.get("vals", "range"), n)
     if kind == "tuple":
         el = RunningChunkBy(size)
         cont = tuple
@@ -183,10 +208,12 @@ def cases_chunks(tier):
             range(1, 6), range(0, 11), ["tuple", "list", "tuple_it", "namedtuple"],
             [True, False]):
         yield {"size": size, "n": n, "container": kind, "as_iter": as_iter}
+        if n:
+            yield {"size": size, "n": n, "container": kind, "as_iter": as_iter, "vals": "none_holes"}
 
 
 def strat_misc(tier):
-    ints = st.lists(st.integers(-5, 5), max_size=12)
+    ints = st.lists(st.one_of(st.integers(-5, 5), st.sampled_from([None, 0, "", False])), max_size=12)
     return st.one_of(
         st.fixed_dictionaries({"kind": st.just("reverse"), "xs": ints,
                                "in_seq": st.booleans()}),
@@ -210,14 +237,14 @@ def judge_misc(case):
         else:
             got = list(Reverse().run(iter(list(xs))))
         exp = list(reversed(list(xs)))
-        if got != exp:
+        if list(map(_typed, got)) != list(map(_typed, exp)):
             raise Violation("reverse-differs", "%s -> %s" % (xs, got))
         return {"nontrivial": len(xs) > 1, "classes": ["reverse"]}
     if k == "chain":
         its = case["its"]
         got = list(Chain(*[list(i) for i in its])())
         exp = list(itertools.chain(*its))
-        if got != exp:
+        if list(map(_typed, got)) != list(map(_typed, exp)):
             raise Violation("chain-differs", "%s -> %s" % (its, got))
         got2 = list(lena.core.Source(Chain(*[iter(list(i)) for i in its]))())
         if got2 != exp:
@@ -238,13 +265,13 @@ def judge_misc(case):
 
 CHECKS = [
     Check("slice_run_box", judge_run, cases=cases_run, exhaustive=True,
-          rule="complete box start,stop in {None,-7..7} x step in {None,1..4} x len 0..10, "
+          rule="complete box start,stop in {None,-7..7} x step in {None,1..4} x len 0..10 x flows of distinct ints / with None holes / all None / false values, "
                "3-/2-/1-argument constructor forms; non-trivial = a negative index and a non-empty flow."),
     Check("slice_fill_box", judge_fill, cases=cases_fill, exhaustive=True,
           rule="complete non-negative box for fill_into, LenaStopFill index checked against every later index; "
                "non-trivial = non-default argument and non-empty flow."),
     Check("slice_reject", judge_reject, cases=cases_reject, exhaustive=True,
-          rule="steps 0,-1,-3,1.5,2.5 x sign patterns of start/stop must raise LenaValueError at construction."),
+          rule="steps 0,-1,-3,1.5,2.5 x every start, stop in {None,-7..7} must raise LenaValueError at construction."),
     Check("chunks_box", judge_chunks, cases=cases_chunks, exhaustive=True,
           rule="RunningChunkBy sizes 1..5 x len 0..10 x container kinds x list/iterator input; non-trivial = more than one window."),
     Check("slice_run_beyond", judge_run, strategy=strat_beyond, quick=1500,
